@@ -66,7 +66,7 @@ def sd2(F, R):
         if sh and tmatch(t, ("cast", ("bin", "BitAnd", ("bin", "Shr", arg, ("c", sh)), ("c", 0xFF)))) is not None:
             return True
         return (t[0] == "place" and tmatch(t[1], ("call", "to_be_bytes", [arg])) is not None and len(t[2]) == 1
-                and isinstance(t[2][0], tuple) and t[2][0][0] == "idx" and t[2][0][1][:2] == ("c", k))
+                and isinstance(t[2][0], tuple) and ((t[2][0][0] == "idx" and t[2][0][1][:2] == ("c", k)) or (t[2][0][0] == "cidx" and t[2][0][1] == k)))
     for k, sh in ((1, 24), (2, 16), (3, 8)):
         R.require(be_byte(ops[k], k - 1), fn, "byte%d" % k, "frame byte %d must be (arg >> %d) as u8, got %s" % (k, sh, tstr(ops[k])), fn.loc(b, i))
     R.require(be_byte(ops[4], 3), fn, "byte4", "frame byte 4 must be arg as u8, got %s" % tstr(ops[4]), fn.loc(b, i))
@@ -82,6 +82,8 @@ def sd2(F, R):
             if e is not None:
                 src = tstr(e["$x"])
                 rng = find_sub(e["$x"], ("agg", "Range", [("c", 0), ("c", 5)]))
+                if rng is None:
+                    rng = find_sub(e["$x"], ("agg", "RangeTo", [("c", 5)]))
                 okc = rng is not None and has_sub(e["$x"], lambda q: q[0] == "var" and q[1] == fl)
                 crc_block = bb
     R.require(okc, fn, "byte5=crc7", "frame byte 5 must be crc7(&frame[0..5]) of the same array", fn.loc(b, i))
@@ -94,22 +96,27 @@ def sd2(F, R):
     # crc7 ends with the end bit: checked by CR1 (C19)
 
 
-@rule("SD3", ["C14"], floor=1,
+@rule("SD3", ["C14"], floor=3,
       doc="card_command sends the frame only after wait_not_busy succeeded, except for CMD0 and CMD12")
 def sd3(F, R):
     fn = F.fn(SD + "::card_command")
     wr = [(b, t) for b, t in fn.calls() if call_matches(t, ("SdCardInner::write_bytes",))]
-    for b, t in wr:
-        def pr(g):
-            if g_try_ok("SdCardInner::wait_not_busy")(g):
-                return True
-            if g.kind == "bool" and g.term[0] == "cmp" and g.term[1] == "Eq" and g.truth is True:
-                a, bb = g.term[2], g.term[3]
-                if a[:2] == ("arg", 2) and bb[0] == "c" and bb[2] and bb[2].split("::")[-1] in ("CMD0", "CMD12"):
-                    return True
-            return False
-        ok, _ = guarded(fn, b, pr)
-        R.require(ok, fn, "busy-guard", "a command frame can be sent without waiting for not-busy (other than CMD0/CMD12)", fn.loc(b))
+    R.require(len(wr) >= 1, fn, "frame-write", "card_command must send the frame with write_bytes", fn.loc(0))
+    from .rules_r3 import specialise_on
+    waited = [(gb, gi) for (gb, gi, g) in all_guards(fn) if g_try_ok("SdCardInner::wait_not_busy")(g)]
+    consts = sorted({int(c["val"]) for k, c in F.consts.items() if k.startswith("sdcard::proto::") and k.split("::")[-1].startswith(("CMD", "ACMD")) and c.get("val") is not None})
+    R.require(len(consts) >= 12, None, "command-set", "expected the driver's command index constants in sdcard::proto (found %d)" % len(consts))
+    bad = []
+    for c in consts:
+        if c in (0, 12):
+            continue
+        # decide every test of `command` for this command index: the frame must not be reachable without a successful wait
+        cut = specialise_on(fn, lambda q: q[:2] == ("arg", 2), c)
+        rs = fn.reach([0], cut_edges=cut + waited)
+        if any(b in rs for b, t in wr):
+            bad.append(c)
+    R.require(not bad, fn, "busy-guard", "a command frame can be sent without waiting for not-busy (other than CMD0/CMD12): command index %s" % bad, fn.loc(wr[0][0]) if wr else fn.loc(0),
+              okdetail="decided for the command indices %s" % consts)
 
 
 @rule("SD4", ["C14"], floor=3,
@@ -285,7 +292,7 @@ def sd6(F, R):
                 R.require(ok, f, "buffer=blocks[i].contents", "%s buffer %s is not a block of the caller's slice" % (n_.split("::")[-1], tstr(buf)), f.loc(b))
 
 
-@rule("SD7", ["C12"], floor=4,
+@rule("SD7", ["C12"], floor=9,
       doc="addressing: read and write compute the command argument as idx*512 for SD1/SD2 (byte addressed) and idx for SDHC, Err(CardNotFound) when uninitialised; the two tables are equal")
 def sd7(F, R):
     tables = {}
@@ -308,50 +315,41 @@ def sd7(F, R):
             R.bad(fn, "addr-var", "read/write must use one address variable for both commands", fn.loc(0))
             continue
         v = next(iter(vars_))
-        for d in fn.defs().get(v, []):
-            if d[0] != "assign":
-                continue
-            val = fn.term_of_rvalue(d[3], d[1])
-            # which card types reach this def?
-            types = set()
-            for (gb, gi, g) in all_guards(fn):
-                if "card_type" in tstr(g.term) and fn.succ(gb)[gi][0] is not None:
-                    if d[1] in fn.reach([fn.succ(gb)[gi][0]]) and g.kind in ("variant", "value", "notvalues", "variants"):
-                        pass
-            # decode through dominating guards on the card_type discriminant
-            gs = [g for (gb, gi, g) in all_guards(fn) if fn.unreachable_without(d[1], [(gb, gi)]) and "card_type" in tstr(g.term)]
-            label = []
-            for g in gs:
-                if g.kind == "variant":
-                    label.append(g.variant)
-                elif g.kind == "variants":
-                    label.append("|".join(g.variant))
-                elif g.kind == "value":
-                    label.append("=%s" % g.value)
-                else:
-                    label.append("not%s" % g.others)
-            from .poly import peq, MUL, C
-            if peq(val, MUL(("arg", 3, None), C(512))):
-                form = "idx*512"
-            elif peq(val, ("arg", 3, None)):
-                form = "idx"
-            else:
-                form = tstr(val)
-            tab[" & ".join(label)] = form
-        tables[name] = tab
-        forms = sorted(tab.values())
-        R.require(forms == ["idx", "idx*512"], fn, "forms", "address forms must be {idx*512 (SD1,SD2), idx (SDHC)}, got %s" % tab, fn.loc(0), okdetail="address table %s" % tab)
-        # which discriminant values select idx? CardType variant order SD1=0, SD2=1, SDHC=2
+        from .poly import peq, MUL, C
+        from .ev import specialise_enum
         vs = F.variants("sdcard::CardType")
-        ok_map = True
-        for lab, form in tab.items():
-            if form == "idx":
-                ok_map = ok_map and ("=%d" % vs.index("SDHC") in lab or "SDHC" in lab)
-            if form == "idx*512":
-                ok_map = ok_map and ("SDHC" not in lab and "=%d" % vs.index("SDHC") not in lab)
-        R.require(ok_map, fn, "mapping", "block addressing must be used exactly for SDHC: %s" % tab, fn.loc(0))
-        errs = [x for x in err_returns(fn, adt="Error") if x[2] == "CardNotFound"]
-        R.require(len(errs) >= 1, fn, "uninit->CardNotFound", "uninitialised card must give Err(CardNotFound)", fn.loc(0))
+        is_opt = lambda x: x[0] == "place" and x[2] and x[2][-1] == "card_type"
+        is_kind = lambda x: x[0] == "place" and "card_type" in x[2] and "as:Some" in x[2] and x[2][-1] == "0"
+        cmd_blocks = [b for b, t in data_cmds]
+        for kind in [None] + list(vs):
+            # decide every test of self.card_type for this concrete value and see which address definition reaches the data commands
+            cut = specialise_enum(fn, is_opt, ["None", "Some"], "None" if kind is None else "Some")
+            if kind is not None:
+                cut += specialise_enum(fn, is_kind, vs, kind)
+            rs = fn.reach([0], cut_edges=cut)
+            if kind is None:
+                R.require(not any(b in rs for b in cmd_blocks), fn, "uninit:no-command", "a data command is sent although the card is not initialised (card_type == None)", fn.loc(0))
+                errs = [x for x in err_returns(fn, adt="Error") if x[2] == "CardNotFound" and x[0] in rs]
+                R.require(len(errs) >= 1 and not any(x[0] in rs for x in ok_returns(fn)), fn, "uninit->CardNotFound", "uninitialised card must give Err(CardNotFound)", fn.loc(0))
+                continue
+            forms = set()
+            for d in fn.defs().get(v, []):
+                if d[0] != "assign" or d[1] not in rs:
+                    continue
+                if not any(cb in fn.reach([d[1]], cut_edges=cut) for cb in cmd_blocks):
+                    continue
+                val = fn.term_of_rvalue(d[3], d[1])
+                if peq(val, MUL(("arg", 3, None), C(512))):
+                    forms.add("idx*512")
+                elif peq(val, ("arg", 3, None)):
+                    forms.add("idx")
+                else:
+                    forms.add(tstr(val))
+            tab[kind] = "|".join(sorted(forms)) or "unreachable"
+        tables[name] = tab
+        want = {k: ("idx" if k == "SDHC" else "idx*512") for k in vs}
+        R.require(tab == want, fn, "forms", "the data command address must be idx*512 for SD1/SD2 (byte addressed) and idx for SDHC (block addressed), got %s" % tab, fn.loc(0), okdetail="address table %s" % tab)
+        R.ok(fn, "mapping", "decided per card kind by specialising every card_type test")
     if "read" in tables and "write" in tables:
         R.require(tables["read"] == tables["write"], None, "read==write", "read and write disagree on addressing: %s vs %s" % (tables["read"], tables["write"]))
 
@@ -407,6 +405,48 @@ def sd8(F, R):
             R.require(ok, f, "variant-match:" + k, "%s::%s used for the wrong Csd variant" % (k, meth), f.loc(b))
 
 
+def _widen(t):
+    t = strip_refs(t)
+    while (t[0] == "cast" and t[1] in ("u16", "u32", "usize", "u64")) or (t[0] == "call" and t[1] and t[1].endswith("::from") and len(t[2]) == 1):
+        t = strip_refs(t[2] if t[0] == "cast" else t[2][0])
+    return t
+
+
+def _byte_of(t, k):
+    """the array a when t is a[k] (widened), else None"""
+    t = _widen(t)
+    if t[0] == "place" and len(t[2]) == 1 and isinstance(t[2][0], tuple) and t[2][0][0] == "idx" and t[2][0][1][:2] == ("c", k):
+        return strip_refs(t[1])
+    return None
+
+
+def be16_source(t):
+    """the 2-byte array a when t is the big-endian u16 of a: u16::from_be_bytes(a) or (a[0] << 8) | a[1] (either operand order, | or +)"""
+    t = strip_refs(t)
+    if t[0] == "call" and t[1] and t[1].endswith("from_be_bytes") and len(t[2]) == 1:
+        return strip_refs(t[2][0])
+    if t[0] == "bin" and t[1] in ("BitOr", "Add", "BitXor"):
+        for hi, lo in ((t[2], t[3]), (t[3], t[2])):
+            hi = strip_refs(hi)
+            if hi[0] == "bin" and ((hi[1] == "Shl" and hi[3][:2] == ("c", 8)) or (hi[1] == "Mul" and hi[3][:2] == ("c", 256))):
+                a, b_ = _byte_of(hi[2], 0), _byte_of(lo, 1)
+                if a is not None and a == b_:
+                    return a
+    return None
+
+
+def from_call(fn, t, name):
+    """t is the (unwrapped) result of a call of `name`: directly, or a local every definition of which is one"""
+    t = strip_refs(t)
+    is_call = lambda q: q[0] == "call" and q[1] and path_matches(q[1], name)
+    if has_sub(t, is_call):
+        return True
+    if t[0] == "var":
+        ds = var_def_terms(fn, t[1])
+        return bool(ds) and all(has_sub(d, is_call) for d in ds)
+    return False
+
+
 @rule("SD9", ["C13", "C14"], floor=4,
       doc="read_data returns Ok only if the first non-0xFF byte was DATA_START_BLOCK and (CRC off or the received big-endian CRC equals crc16 of the received buffer); the buffer and then two CRC bytes are always transferred")
 def sd9(F, R):
@@ -415,15 +455,18 @@ def sd9(F, R):
     if not oks:
         R.bad(fn, "anchor", "no Ok return", kind="anchor-missing")
     for (b, i, v) in oks:
-        ok_tok, _ = guarded(fn, b, g_cmp("Eq", True, None, lambda z: z[0] == "c" and z[2] and z[2].endswith("DATA_START_BLOCK")))
+        start_tok = F.const("sdcard::proto::DATA_START_BLOCK")
+        ok_tok, _ = guarded(fn, b, g_cmp("Eq", True, lambda a: from_call(fn, a, "SdCardInner::read_byte"), lambda z: z[:2] == ("c", start_tok)))
         R.require(ok_tok, fn, "token", "Ok reachable without status == DATA_START_BLOCK", fn.loc(b, i))
 
         def crc_ok(g):
             if g.kind == "bool" and g.term[0] == "place" and last_field(g.term) == "use_crc" and g.truth is False:
                 return True
             if g.kind == "bool" and g.term[0] == "cmp" and g.term[1] == "Eq" and g.truth is True:
-                s_ = tstr(g.term)
-                return "from_be_bytes" in s_ and "crc16" in s_
+                for x, y in ((g.term[2], g.term[3]), (g.term[3], g.term[2])):
+                    x = strip_refs(x)
+                    if x[0] == "call" and x[1] and path_matches(x[1], "sdcard::proto::crc16") and be16_source(y) is not None:
+                        return True
             return False
         ok_crc, _ = guarded(fn, b, crc_ok)
         R.require(ok_crc, fn, "crc", "Ok reachable with CRC enabled and without crc == crc16(buffer)", fn.loc(b, i))
@@ -444,12 +487,12 @@ def sd9(F, R):
     tl = [(h, body, backs) for (h, body, backs) in fn.loops() if any(fn.term(x)["k"] == "Call" and call_matches(fn.term(x), ("SdCardInner::read_byte",)) for x in body)]
     R.require(len(tl) == 1, fn, "token-loop", "expected one token wait loop in read_data", fn.loc(0))
     for (h, body, backs) in tl:
-        idle = lambda g: g.kind == "bool" and g.truth is True and g.term[0] == "cmp" and g.term[1] == "Eq" and g.term[3][:2] == ("c", 0xFF) and has_sub(g.term[2], lambda q: q[0] == "call" and q[1] and path_matches(q[1], "SdCardInner::read_byte"))
+        idle = g_cmp("Eq", True, lambda a: from_call(fn, a, "SdCardInner::read_byte"), lambda z: z[:2] == ("c", 0xFF))
         edges = [(gb, gi) for (gb, gi, g) in all_guards(fn) if gb in body and idle(g)]
         again = [bs for bs in backs if bs in fn.reach([h], cut_edges=edges, cut_blocks=[x for x in fn.live_blocks() if x not in body])]
         R.require(bool(edges) and not again, fn, "first-non-ff", "the token wait can go round again after a byte other than 0xFF: an unexpected token (error token, junk) is skipped instead of being reported, and whatever follows a later 0xFE is taken as the block", fn.loc(h))
     errs = [x for x in err_returns(fn, adt="Error") if x[2] == "ReadError"]
-    R.require(len(errs) >= 1 and all(guarded(fn, x[0], g_cmp("Eq", False, None, lambda z: z[0] == "c" and z[2] and z[2].endswith("DATA_START_BLOCK")))[0] for x in errs), fn, "unexpected-token-error", "a first byte that is neither 0xFF nor DATA_START_BLOCK must give Err(ReadError)", fn.loc(0))
+    R.require(len(errs) >= 1 and all(guarded(fn, x[0], g_cmp("Eq", False, lambda a: from_call(fn, a, "SdCardInner::read_byte"), lambda z: z[:2] == ("c", F.const("sdcard::proto::DATA_START_BLOCK"))))[0] for x in errs), fn, "unexpected-token-error", "a first byte that is neither 0xFF nor DATA_START_BLOCK must give Err(ReadError)", fn.loc(0))
     # crc16 is computed over the same buffer, crc from the two bytes
     for bb, t in fn.calls():
         if call_matches(t, ("sdcard::proto::crc16",)):
@@ -463,11 +506,15 @@ def sd10(F, R):
     fn = F.fn(SD + "::write_data")
     for (b, i, v) in ok_returns(fn):
         def acc(g):
-            if g.kind == "bool" and g.term[0] == "cmp" and g.term[1] == "Eq" and g.truth is True:
-                a, z = g.term[2], g.term[3]
-                e = tmatch(a, ("bin", "BitAnd", "$s", ("c", "_", "DATA_RES_MASK")))
-                return e is not None and z[0] == "c" and z[2] and z[2].endswith("DATA_RES_ACCEPTED") and has_sub(e["$s"], lambda q: q[0] == "call" and q[1] and path_matches(q[1], "SdCardInner::read_byte"))
-            return False
+            mask, acc_ = F.const("sdcard::proto::DATA_RES_MASK"), F.const("sdcard::proto::DATA_RES_ACCEPTED")
+
+            def masked(a):
+                for pat in (("bin", "BitAnd", "$s", ("c", mask)), ("bin", "BitAnd", ("c", mask), "$s")):
+                    e = tmatch(a, pat)
+                    if e is not None and from_call(fn, e["$s"], "SdCardInner::read_byte"):
+                        return True
+                return False
+            return g_cmp("Eq", True, masked, lambda z: z[:2] == ("c", acc_))(g)
         ok, _ = guarded(fn, b, acc)
         R.require(ok, fn, "accepted", "write_data returns Ok without (status & DATA_RES_MASK) == DATA_RES_ACCEPTED", fn.loc(b, i))
     # sequence: write_byte(token) write_bytes(buffer) write_bytes(crc) read_byte
@@ -505,16 +552,21 @@ def sd10(F, R):
     if c13:
         b13 = c13[0][0]
         errs = [x for x in err_returns(fn2, adt="Error") if x[2] == "WriteError"]
+        # the non-zero edge of each of the two status tests leads to Err(WriteError) and to no Ok return
         n_guarded = 0
-        for (b, i, var, term) in errs:
-            g1, _ = guarded(fn2, b, g_cmp("Eq", False, lambda a: has_sub(a, lambda q: q[0] == "call" and q[1] and path_matches(q[1], "SdCardInner::card_command")), lambda z: z[:2] == ("c", 0)))
-            g2, _ = guarded(fn2, b, g_cmp("Eq", False, lambda a: has_sub(a, lambda q: q[0] == "call" and q[1] and path_matches(q[1], "SdCardInner::read_byte")), lambda z: z[:2] == ("c", 0)))
-            n_guarded += int(g1) + int(g2)
+        for nm in ("SdCardInner::card_command", "SdCardInner::read_byte"):
+            pr = g_cmp("Eq", False, lambda a, nm=nm: from_call(fn2, a, nm), lambda z: z[:2] == ("c", 0))
+            edges = [(gb, gi) for (gb, gi, g) in all_guards(fn2) if pr(g) and gb in fn2.reach_after(b13)]
+            good = bool(edges)
+            for (gb, gi) in edges:
+                rs = fn2.reach([fn2.succ(gb)[gi][0]])
+                good = good and any(x[0] in rs for x in errs) and not any(x[0] in rs for x in ok_returns(fn2))
+            n_guarded += int(good)
         R.require(n_guarded >= 2, fn2, "status-checks", "single-block write must fail when CMD13's R1 or the following status byte is non-zero", fn2.loc(b13))
         # ... and success needs BOTH status bytes to be zero: every path from the CMD13 call to an Ok return crosses `R1 == 0` and `byte2 == 0`
-        is_r1 = g_cmp("Eq", True, lambda a: has_sub(a, lambda q: q[0] == "call" and q[1] and path_matches(q[1], "SdCardInner::card_command") and q[3] == b13), lambda z: z[:2] == ("c", 0))
+        is_r1 = g_cmp("Eq", True, lambda a: from_call(fn2, a, "SdCardInner::card_command") and (has_sub(a, lambda q: q[0] == "call" and q[3] == b13) or strip_refs(a)[0] == "var"), lambda z: z[:2] == ("c", 0))
         rb = [b for b, t in fn2.calls() if call_matches(t, ("SdCardInner::read_byte",)) and b in fn2.reach_after(b13)]
-        is_r2 = g_cmp("Eq", True, lambda a: has_sub(a, lambda q: q[0] == "call" and q[1] and path_matches(q[1], "SdCardInner::read_byte") and q[3] in rb), lambda z: z[:2] == ("c", 0))
+        is_r2 = g_cmp("Eq", True, lambda a: from_call(fn2, a, "SdCardInner::read_byte") and (has_sub(a, lambda q: q[0] == "call" and q[3] in rb) or strip_refs(a)[0] == "var"), lambda z: z[:2] == ("c", 0))
         for (b, i, v) in ok_returns(fn2):
             if b not in fn2.reach_after(b13):
                 continue
@@ -618,29 +670,42 @@ def sd12(F, R):
             else:
                 R.bad(fn, key, "loop at %s can cycle without passing a successful Delay::delay (no bound on SPI traffic if the card keeps answering)" % fn.loc(h), fn.loc(h))
     d = F.fn("sdcard::Delay::delay")
-    errs = err_returns(d, adt="Error")
-    okz = False
-    for (b, i, var, term) in err_returns(d, adt=""):
-        pass
+
+    def is_counter(x):
+        x = strip_refs(x)
+        return x[0] == "place" and x[2] and x[2][-1] == "retries_left"
+
+    def checked(x):
+        """x = retries_left.checked_sub(c), c >= 1"""
+        return x[0] == "call" and x[1] and x[1].endswith("::checked_sub") and is_counter(x[2][0]) and x[2][1][0] == "c" and isinstance(x[2][1][1], int) and x[2][1][1] >= 1
+
+    def zero_edge(g):
+        """guard edge taken exactly when the counter cannot be decremented"""
+        if g.kind == "bool" and g.term[0] == "cmp" and is_counter(g.term[2]) and g.term[3][:2] == ("c", 0):
+            return (g.term[1] == "Eq" and g.truth is True) or (g.term[1] in ("Gt", "Ne") and g.truth is False)
+        return g.kind == "variant" and g.variant == "None" and checked(g.term)
+
+    def nonzero_edge(g):
+        if g.kind == "bool" and g.term[0] == "cmp" and is_counter(g.term[2]) and g.term[3][:2] == ("c", 0):
+            return (g.term[1] == "Eq" and g.truth is False) or (g.term[1] in ("Gt", "Ne") and g.truth is True)
+        return g.kind == "variant" and g.variant == "Some" and checked(g.term)
+
     zero_err = False
     dec = False
     for (gb, gi, g) in all_guards(d):
-        if g.kind == "bool" and g.term[0] == "cmp" and g.term[1] == "Eq" and "retries_left" in tstr(g.term[2]) and g.term[3][:2] == ("c", 0):
+        if zero_edge(g):
             tgt = d.succ(gb)[gi][0]
             reach = d.reach([tgt])
-            if g.truth is True:
-                zero_err = not any(x[0] in reach for x in ok_returns(d))
-    for b, i, s in d.stmts():
-        if s["k"] == "Assign" and s["p"]["proj"] and "retries_left" in d.place_str(s["p"]):
-            v = d.term_of_rvalue(s["rv"], b)
-            dec = tmatch(v, ("bin", "Sub", "_", ("c", 1))) is not None
+            zero_err = not any(x[0] in reach for x in ok_returns(d))
+    stores = [(b, i, d.term_of_rvalue(s["rv"], b)) for b, i, s in d.stmts() if s["k"] == "Assign" and s["p"]["proj"] and d.place_str(s["p"]).endswith("retries_left")]
+    for b, i, v in stores:
+        m = tmatch(v, ("bin", "Sub", "_", ("c", 1)))
+        dec = (m is not None and is_counter(v[2])) or (v[0] == "place" and checked(v[1]) and tuple(v[2]) == ("as:Some", "0"))
     R.require(zero_err and dec, d, "ranking", "Delay::delay must fail when retries_left == 0 and otherwise decrement it", d.loc(0))
     # ... in that order: the decrement happens only after the counter was seen to be non-zero (a budget of 0 must fail, not wrap to 2^32-1)
-    for b, i, s in d.stmts():
-        if s["k"] == "Assign" and s["p"]["proj"] and "retries_left" in d.place_str(s["p"]):
-            g, _ = guarded(d, b, lambda g: g.kind == "bool" and g.term[0] == "cmp" and g.term[1] == "Eq" and g.truth is False and "retries_left" in tstr(g.term[2]) and g.term[3][:2] == ("c", 0))
-            g2, _ = guarded(d, b, lambda g: g.kind == "bool" and g.term[0] == "cmp" and g.term[1] in ("Gt", "Ne") and g.truth is True and "retries_left" in tstr(g.term[2]) and g.term[3][:2] == ("c", 0))
-            R.require(g or g2, d, "test-before-decrement", "Delay::delay decrements retries_left before testing it for zero: with a budget of 0 (AcquireOpts::acquire_retries = 0) the counter underflows - a panic, or 2^32-1 retries (an effectively unbounded wait)", d.loc(b, i))
+    for b, i, v in stores:
+        g, _ = guarded(d, b, nonzero_edge)
+        R.require(g, d, "test-before-decrement", "Delay::delay decrements retries_left before testing it for zero: with a budget of 0 (AcquireOpts::acquire_retries = 0) the counter underflows - a panic, or 2^32-1 retries (an effectively unbounded wait)", d.loc(b, i))
     for nm, cst in (("new_read", "DEFAULT_READ_RETRIES"), ("new_write", "DEFAULT_WRITE_RETRIES"), ("new_command", "DEFAULT_COMMAND_RETRIES")):
         v = F.const("sdcard::Delay::" + cst)
         R.require(0 < v < 2 ** 32 - 1, None, "finite:" + cst, "%s must be a finite retry count" % cst, okdetail="%s = %d" % (cst, v))
@@ -742,8 +807,12 @@ def sd14(F, R):
         R.require(ok, f, "sd2-iff-echo", "SD2 must be chosen only when the CMD8 echo byte is 0xAA", f.loc(pairs["SD2"][1]))
     a41 = byname["ACMD41"]
     R.require(a41[3].endswith("card_acmd") and strip_refs(a41[2])[0] == "var", f, "acmd41-via-acmd", "ACMD41 must be sent with card_acmd and the per-kind argument", f.loc(a41[0]))
-    ok58, _ = guarded(f, byname["CMD58"][0], g_cmp("Eq", True, None, lambda z: is_variant(z, "CardType::SD2")))
-    R.require(ok58, f, "cmd58-sd2", "CMD58 must be sent only for SD2 cards", f.loc(byname["CMD58"][0]))
+    from .ev import specialise_enum
+    kinds = F.variants("sdcard::CardType")
+    is_kind_local = lambda x: x[0] == "var" and f.locals[x[1]]["ty"].endswith("CardType")
+    for kd in ("SD1", "SD2"):
+        rs = f.reach([0], cut_edges=specialise_enum(f, is_kind_local, kinds, kd))
+        R.require((byname["CMD58"][0] in rs) == (kd == "SD2"), f, "cmd58-sd2:" + kd, "CMD58 must be sent exactly for SD2 cards (for %s it %s)" % (kd, "is sent" if kd != "SD2" else "is not sent"), f.loc(byname["CMD58"][0]))
     # SDHC upgrade
     up = [(b, i) for b, i, s in f.stmts() if s["k"] == "Assign" and not s["p"]["proj"] and (lambda v: v[0] == "agg" and v[2] and v[2].endswith("CardType::SDHC"))(f.term_of_rvalue(s["rv"], b))]
     oku = False
